@@ -13,7 +13,7 @@ SG = os.path.join(BUILD, "sg")
 HB = os.path.join(BUILD, "harness")
 SPEC = os.path.join(VERIF, "spec")
 # mutation / seeded-change experiments (VERIF_BUILD set) must not overwrite the evidence and replays of the real tree
-OUTDIR = BUILD if os.environ.get("VERIF_BUILD") else VERIF
+OUTDIR = os.environ.get("VERIF_OUTDIR") or (BUILD if os.environ.get("VERIF_BUILD") else VERIF)
 NCPU = os.cpu_count() or 4
 TLA_CP = "/opt/veriftools/tla/tla2tools.jar:/opt/veriftools/tla/CommunityModules-deps.jar"
 DEFAULT_TLC_WORKERS = int(os.environ.get("VERIF_TLC_WORKERS", "6"))   # several checks may run at once: do not take all cores
